@@ -34,7 +34,8 @@ LeafV(n) ==
     [] n = "anchor" -> Anch("bol", Lit(<<A>>))
     [] n = "altdup" -> Alt(Alt(Alt(Lit(<<A, B>>), Lit(<<A>>)), Lit(<<A, B, 99>>)), Lit(<<A, B>>))   \* Either('ab','a','abc','ab')
 
-Obj(v, id) == [v |-> v, ref |-> Ref(v), ident |-> id]
+\* cls: the Python object is an instance of a class of classes.py (only those support | and ~)
+Obj(v, id, c) == [v |-> v, ref |-> Ref(v), ident |-> id, cls |-> c]
 Fresh == Len(heap) + 1
 
 \* outcome of a method call: [o |-> outcome, self |-> "the call returns its receiver"]
@@ -64,7 +65,7 @@ Binary == {"concat", "add", "either", "enclose", "followed_by", "not_preceded_by
 WithN  == {"exactly", "mul", "at_most"}
 
 Init == /\ \E l1 \in HLeaves, l2 \in HLeaves :
-             /\ heap = << Obj(LeafV(l1), 1), Obj(LeafV(l2), 2) >>
+             /\ heap = << Obj(LeafV(l1), 1, LeafV(l1).k = "cls"), Obj(LeafV(l2), 2, LeafV(l2).k = "cls") >>
              /\ hist = << <<"new", l1, 0, 0>>, <<"new", l2, 0, 0>> >>
         /\ cached = {}
 
@@ -73,10 +74,12 @@ Build(op, i, j, n) ==
   LET c == Call(op, heap[i].v, IF j = 0 THEN Eps ELSE heap[j].v, n) IN
   /\ Len(heap) < MaxHeap
   /\ c.o.ok /\ c.o.ex = {}                       \* only calls that the specification accepts outright
-  /\ (op = "invert" => heap[i].v.k = "cls")
+  /\ (op = "invert" => heap[i].cls)
+  /\ (op = "or" => heap[i].cls /\ heap[j].cls)
   /\ (op = "either" => ~EitherUnspecified(heap[i].v, heap[j].v))
   /\ NamesUnique(c.o.v) /\ RefsDefined(c.o.v)
-  /\ heap' = Append(heap, Obj(c.o.v, IF c.self THEN heap[i].ident ELSE Fresh))
+  /\ heap' = Append(heap, Obj(c.o.v, IF c.self THEN heap[i].ident ELSE Fresh,
+                                IF c.self THEN heap[i].cls ELSE op \in {"or", "invert"}))
   /\ hist' = Append(hist, <<op, i, j, n>>)
   /\ UNCHANGED cached
 
@@ -98,6 +101,9 @@ Next ==
        \/ ("match" \in HOps /\ Match(i))
 
 Spec == Init /\ [][Next]_vars
+
+\* simulation runs (tlc -simulate): print every history that reaches the depth bound, with the reference texts of its objects
+SimPrint == Len(hist) < MaxLen \/ PrintT(<<"SIMH", hist, [i \in 1..Len(heap) |-> heap[i].ref]>>)
 
 \* C20 on the design: existing objects never change, whatever is called
 HeapImmutable == [][ \A i \in 1..Len(heap) : heap'[i] = heap[i] ]_vars
